@@ -422,7 +422,9 @@ def _binding_selftest(ctx, recs, verdicts):
     v, _ = vlib.validate_events("Trace_Frame", slim, native=True, tag="frself")
     got = [v[i] for i in range(len(muts))]
     want = ["wrong-message", "over-read", "rejects-valid", "accepts-corrupt", "wrong-message"]
-    if got != want:
+    # every corrupted trace must be REJECTED; which clause names it gets is recorded (it depends on where the base execution,
+    # recorded from the code under test, ended - a broken implementation must not turn this self-test into a machinery failure)
+    if any(x == "ok" for x in got) or (got != want and not ctx.violations):
         raise vlib.MachineryFailure(f"binding self-test (framing): expected {want}, got {got}")
     ctx.cov["binding_selftest_frame"] = dict(zip(["payload-byte-changed", "request-too-large", "valid-message-rejected",
                                                   "corrupt-message-accepted", "command-changed"], got))
